@@ -143,7 +143,11 @@ def run_property(pid, tier, repo, seed):
                         undecided.append(dict(obligation=t, harness=h['name'], reason='tool limit (time-out / memory) on this run'))
                     notes.append(f"kani harness {h['name']}: tool limit, recorded as undecided: {h['reason'][:160]}")
                     continue
-                raise Undecided(f"kani harness {h['name']}: {h['reason']}")
+                # undecided harness (lost anchor, non-reproducing counterexample, tool hiccup): remember it, go on; a violation established by
+                # another unit / harness is still reported, otherwise the check ends UNDECIDED
+                verus_undecided.append(f"kani harness {h['name']}: {h['reason']}")
+                notes.append(f"kani harness {h['name']}: undecided: " + str(h['reason'])[:200])
+                continue
             ftags = set(t for t in h.get('failed_tags', []) if t.startswith(pid + '.'))
             if h['status'] == 'failed' and not ftags and h.get('failed_tags'):
                 # failure belongs to another property's tag only
